@@ -403,7 +403,7 @@ def c14_parts(tier, seed):
     T = "c14_clearhash"
     q = tier == "quick"
     return [
-        P("histories", T, "fast", ["--part", "histories", "--depth", 11 if q else 12], require=["nontrivial", "fresh_runs"], deadline_frac=0.9),
+        P("histories", T, "fast", ["--part", "histories", "--depth", 10 if q else 12], require=["nontrivial", "fresh_runs"], deadline_frac=0.9),
     ] + ([] if q else [P("histories-asan", T, "seq", ["--part", "histories", "--depth", 7, "--tier", "quick"], require=["nontrivial"], deadline_frac=0.5)])
 
 CHECKS["C14"] = dict(
@@ -416,7 +416,7 @@ CHECKS["C14"] = dict(
              "(thorough: triples over a reduced alphabet); same command twice",
     oracle="normalised probe transcript (every info line's depth/score/bound/nodes/pv/hashfull, final node count, bestmove, ponder; time, nps and the once-per-second periodic statistics "
            "lines removed) equals that of the same probe in a freshly started engine; two fresh engines agree with each other (determinism)",
-    bound=dict(quick="probe depth 11/10, 51 + 156 + 507 + 3 histories", thorough="probe depth 12/11, triples over a reduced alphabet, more generation counts"),
+    bound=dict(quick="probe depth 10/9, 51 + 156 + 507 + 3 histories", thorough="probe depth 12/11, triples over a reduced alphabet, more generation counts"),
     assumptions=["Threads 1 for the probe; time-limited probes are outside the property"],
     technique="bounded-exhaustive enumeration of session histories on the real UCI stack (fresh process per history), differential oracle against a fresh engine",
     level_text="All histories of the stated alphabet up to length 2 (3) and every generation-counter value are executed on the real engine and compared line by line with a fresh start.",
